@@ -120,7 +120,7 @@ func cblGenerate(seed uint64, tier string, index int) json.RawMessage {
 				case x < 18:
 					op.Kind, op.Ms = "idle", []int{1, 50, 600}[r.Intn(3)]
 				case x < 19:
-					op.Kind, op.User = "reconnect", r.Intn(2)
+					op.Kind, op.User = []string{"reconnect", "getrev", "getrev"}[r.Intn(3)], r.Intn(2)
 				default:
 					op.Att = "new"
 				}
@@ -157,6 +157,23 @@ func cblGenerate(seed uint64, tier string, index int) json.RawMessage {
 	if index%2 == 1 {
 		p.Cfg.MaxFaults = r.Range(1, 2)
 		p.Cfg.FaultPermille = map[string]int{simnet.AltSever: 3}
+	}
+	if index%8 == 2 {
+		// directed: the user is given role r1 (which carries channel C) while its client is connected, the role then
+		// loses the channel (only the role document changes), and documents are written to that channel afterwards
+		put := func(doc int) cblOp {
+			return cblOp{Kind: "put", Doc: doc, Chans: [][]string{{"C"}, {"C"}, {"B", "C"}}[r.Intn(3)], Att: []string{"new", "", "keep"}[r.Intn(3)]}
+		}
+		p.Phases = [][][]cblOp{
+			{{put(0), {Kind: "put", Doc: 1, Chans: []string{"A"}, Att: "new"}}},
+			{{put(r.Intn(cblDocs)), {Kind: "idle", Ms: 50}}},
+			{{put(0), put(1), put(2)}, {put(r.Intn(cblDocs))}},
+		}
+		p.Access = [][]string{nil, nil, nil}
+		p.RoleSteps = []string{"grant", []string{"chans:", "chans:B"}[r.Intn(2)], ""}
+		if r.Chance(300) {
+			p.RoleSteps[1] = "revoke"
+		}
 	}
 	return mustJSON(p)
 }
@@ -272,6 +289,7 @@ type cblClient struct {
 	perDoc                                          map[string]int
 	ever                                            map[string]bool // every channel the user held at some time
 	restReads, restOK                               int             // REST part: requests issued, answered 200
+	getRevs                                         int             // getRev requests answered
 }
 
 // coin is a decision of the client that depends on the seed and on how many revisions of the document this client
@@ -345,6 +363,29 @@ func (c *cblClient) getAttachment(sender *blip.Sender, docID, digest string) ([]
 		return nil, fmt.Errorf("%s %s: %s", resp.Properties["Error-Domain"], resp.Properties["Error-Code"], body)
 	}
 	return body, nil
+}
+
+// getRev asks for a document's current revision on the open connection (the connected-client message of the
+// replication protocol); what arrives is scanned like every other answer.
+func (c *cblClient) getRev(sender *blip.Sender, docID string) {
+	rq := blip.NewRequest()
+	rq.SetProfile(db.MessageGetRev)
+	rq.Properties[db.GetRevMessageId] = docID
+	if !sender.Send(rq) {
+		return
+	}
+	resp := rq.Response()
+	body, err := resp.Body()
+	if err != nil {
+		return
+	}
+	c.mu.Lock()
+	c.getRevs++
+	c.mu.Unlock()
+	c.scan("getRev answer for "+docID, body)
+	for k, v := range resp.Properties {
+		c.scan("getRev answer property "+k, []byte(v))
+	}
 }
 
 func (c *cblClient) connect(since string) error {
@@ -607,7 +648,7 @@ func cblRun(env *verifsim.Env, raw json.RawMessage, judgeProp string, restReads 
 		for _, c := range clients {
 			c.disconnect()
 			c.mu.Lock()
-			for k, v := range map[string]int{"REST reads issued": c.restReads, "REST reads answered 200": c.restOK, "revision messages received": c.received, "revision messages with attachments": c.attRevs, "attachments downloaded inside the window": c.fetchedOK,
+			for k, v := range map[string]int{"getRev requests answered": c.getRevs, "REST reads issued": c.restReads, "REST reads answered 200": c.restOK, "revision messages received": c.received, "revision messages with attachments": c.attRevs, "attachments downloaded inside the window": c.fetchedOK,
 				"revisions refused by the client": c.rejectedRevs, "downloads refused outside the window": c.refusedProbes} {
 				for i := 0; i < v; i++ {
 					s.Probe(k)
@@ -629,6 +670,16 @@ func cblRun(env *verifsim.Env, raw json.RawMessage, judgeProp string, restReads 
 		case "idle":
 			rec := t.Begin("idle", op.Ms)
 			time.Sleep(time.Duration(op.Ms) * time.Millisecond)
+			rec.End(nil, nil)
+		case "getrev":
+			rec := t.Begin("getrev", op)
+			c := clients[op.User%len(clients)]
+			c.mu.Lock()
+			sender := c.sender
+			c.mu.Unlock()
+			if sender != nil {
+				c.getRev(sender, docID(op.Doc))
+			}
 			rec.End(nil, nil)
 		case "reconnect":
 			rec := t.Begin("reconnect", op.User)
@@ -804,6 +855,10 @@ func cblRun(env *verifsim.Env, raw json.RawMessage, judgeProp string, restReads 
 						c.scan("attachment download", data)
 						got = append(got, fmt.Sprintf("%s of %s (%d bytes, %q...)", parts[1], parts[0], len(data), string(bytes.TrimRight(data, "-"))))
 					}
+					// and for the current revision of every document, on the same (long-lived) connection
+					for i := 0; i < cblDocs; i++ {
+						c.getRev(sender, docID(i))
+					}
 				}
 				rec.End(len(got), nil)
 			})
@@ -922,7 +977,13 @@ func cblRun(env *verifsim.Env, raw json.RawMessage, judgeProp string, restReads 
 		for si, step := range steps {
 			var code int
 			var body []byte
-			if cerr := s.Call(fmt.Sprintf("access%d.%d", pi, si), func() { code, body = step.do() }); cerr != nil {
+			if cerr := s.Call(fmt.Sprintf("access%d.%d", pi, si), func() {
+				code, body = step.do()
+				if restReads {
+					// the user's next request comes right away (it is what recomputes and stores the user's access)
+					n.userReq(c0.cfg.User, "GET", "/db/", "", nil)
+				}
+			}); cerr != nil {
 				return budget(cerr, "changing "+step.what)
 			}
 			if code >= 300 {
